@@ -204,6 +204,8 @@ class Lowerer:
                 self.atom_info[s] = {"kind": "ufn", "arg": (None, None), "node": n, "extra": None}
             self.node_atoms[n.nid] = s
             return (s, None)
+        if op == "re":
+            return g[n.args[0].nid]
         if op == "abs":
             na, da = g[n.args[0].nid]
             num = self.t("(ite (>= %s 0.0) %s (- %s))" % (na, na, na), (na,))
